@@ -62,8 +62,8 @@ Print Assumptions C20_externals.
     error position under the other thread's feet *)
 Theorem C20_nonvacuous :
   let '(ts', g') := run _ _ _ _ lib_step ex_sched ([ex_t1; ex_t2], None) in
-  nth_error ts' 0 = Some (fst (alone _ _ _ _ lib_step 3 ex_t1 None)) /\
-  nth_error ts' 1 = Some (fst (alone _ _ _ _ lib_step 3 ex_t2 (Some 7%nat))) /\
+  nth_error ts' 0 = Some (fst (alone _ _ _ _ lib_step 7 ex_t1 None)) /\
+  nth_error ts' 1 = Some (fst (alone _ _ _ _ lib_step 6 ex_t2 (Some 7%nat))) /\
   snd (alone _ _ _ _ lib_step 1 ex_t1 None) = Some 2%nat /\ g' = None.
 Proof. exact ex_interleaved. Qed.
 Print Assumptions C20_nonvacuous.
